@@ -341,9 +341,9 @@ def generate(ctx):
     cases += dt_cases(ctx.rng, ctx.n(120, 3000))
     for _ in range(ctx.n(110, 2500)):
         cases.append(api_case(ctx.rng))
-    from props import c19_api
+    from props import shim_api
     for _ in range(ctx.n(40, 600)):
-        cases.append(c19_api.keys_case(ctx.rng))
+        cases.append(shim_api.keys_case(ctx.rng))
     return cases
 
 
@@ -384,8 +384,8 @@ def lean_ops(case):
     if case["t"] == "keys":
         return []
     if case["t"] == "api":
-        from props import c19_api
-        return c19_api.lean_ops(case)
+        from props import shim_api
+        return shim_api.lean_ops(case)
     raise common.HarnessFault("unknown case type %r" % case.get("t"))
 
 
@@ -403,10 +403,10 @@ def evaluate(case, louts, ctx):
             return eval_shim(case, louts, ctx)
         if t == "dt":
             return eval_dt(case, louts, ctx)
-        from props import c19_api
+        from props import shim_api
         if t == "keys":
-            return c19_api.eval_keys(case, ctx)
-        return c19_api.evaluate(case, louts, ctx)
+            return shim_api.eval_keys(case, ctx)
+        return shim_api.evaluate(case, louts, ctx)
     except common.HarnessFault:
         raise
     except Exception as e:  # noqa
